@@ -166,6 +166,7 @@ ReindexFindings(T, ns, j, pre, post, pos) ==
                                   o == StoredAt(post[pos], s)
                                   m == MatchAny(o, F(s, post, pos), s.rv, s.sl)
                               IN <<IF m = "bad" THEN "value"
+                                   ELSE IF s.rv >= 0 /\ ~RoundedV(o, s.rv) THEN "round"
                                    ELSE IF ~SameV(o, StoredAt(pre[pos], s)) THEN "reindex_differs"
                                    ELSE IF m = "unchecked" THEN "unchecked" ELSE "ok", s.name>>
                               : q \in 1..Len(ss) }
@@ -250,7 +251,7 @@ TwinFindings(tw, post) ==
 \* --------------------------------------------------------------------------
 DefApplies(T, j) ==
   LET m == T.mg[j]
-  IN /\ ~(m.fill /\ m.ha) /\ ~(m.ha /\ m.life >= 0)
+  IN /\ ~(m.fill /\ m.ha) /\ ~(m.ha /\ m.life >= 0 /\ m.tf # 0)
      /\ (m.src = 0 \/ (T.mg[m.src].tf = 0 /\ ~T.mg[m.src].ha /\ T.mg[m.src].life < 0))
      /\ m.late = 0     \* a manager created later starts from what the default one still holds
 DefFindings(T, j, k, postj) ==
